@@ -23,6 +23,10 @@ def py_key(k):
     """case-JSON object key -> python dict key (a marker prefix stands for an int key, which JSON itself cannot carry)."""
     if isinstance(k, str) and k.startswith(KEY_INT):
         return int(k[len(KEY_INT):])
+    if isinstance(k, str) and k.startswith('__key_tuple__:'):
+        return tuple(k[len('__key_tuple__:'):].split(','))
+    if isinstance(k, str) and k.startswith('__key_bytes__:'):
+        return bytes.fromhex(k[len('__key_bytes__:'):])
     return k
 
 
@@ -57,6 +61,8 @@ def pyval(w):
         return bytes.fromhex(w['b'])
     if 'i' in w:
         return w['i']
+    if 'f' in w:
+        return float(w['f'])
     if 'bool' in w:
         return w['bool']
     if 'd' in w:
@@ -108,6 +114,8 @@ def wv_sx(w):
         return '#' + w['b']
     if 'i' in w:
         return '(i %d)' % w['i']
+    if 'f' in w:
+        return 'other'          # a float (even an integral one) is not an int: the model's "some other object"
     if 'bool' in w:
         return 'true' if w['bool'] else 'false'
     if 'd' in w:
